@@ -1311,3 +1311,9 @@ func (m *Machine) convInt(i Int, from, to types.Type) Val {
 	}
 	return Int{Lo: lo, Hi: hi, Name: tname()}
 }
+
+// ChoiceOf returns the option already taken for an atom on the current path.
+func (m *Machine) ChoiceOf(key string) (int, bool) {
+	v, ok := m.atoms[key]
+	return v, ok
+}
